@@ -42,16 +42,16 @@ public:
     uint64_t u64();
     double   dbl();
     float    flt();
-    inline void read(uint8_t  &v) {v = u8();}
-    inline void read(uint16_t &v) {v = u16();}
-    inline void read(uint32_t &v) {v = u32();}
-    inline void read(uint64_t &v) {v = u64();}
-    inline void read(int8_t   &v) {v = u8();}
-    inline void read(int16_t  &v) {v = u16();}
-    inline void read(int32_t  &v) {v = u32();}
-    inline void read(int64_t  &v) {v = u64();}
-    inline void read(double &v)   {v = dbl();}
-    inline void read(float &v)    {v = flt();}
+    inline void read(uint8_t  &v) {need(sizeof(v)); v = u8();}
+    inline void read(uint16_t &v) {need(sizeof(v)); v = u16();}
+    inline void read(uint32_t &v) {need(sizeof(v)); v = u32();}
+    inline void read(uint64_t &v) {need(sizeof(v)); v = u64();}
+    inline void read(int8_t   &v) {need(sizeof(v)); v = u8();}
+    inline void read(int16_t  &v) {need(sizeof(v)); v = u16();}
+    inline void read(int32_t  &v) {need(sizeof(v)); v = u32();}
+    inline void read(int64_t  &v) {need(sizeof(v)); v = u64();}
+    inline void read(double &v)   {need(sizeof(v)); v = dbl();}
+    inline void read(float &v)    {need(sizeof(v)); v = flt();}
     void read(std::string &v);
 
 // basic types, WARNING: length unchecked!
